@@ -18,7 +18,9 @@ at most once per play-through, exactly once if the story got past the site, with
 handler cont() returns Ok and the lists are cleared; without a handler an error makes that cont() return Err \
 naming the first error and stays in get_current_errors() until reset_state, a warning never causes Err and is \
 listed once in get_current_warnings(); after an error the story cannot continue until reset/redirect; after \
-reset_state both lists are empty. Non-trivial = play-through with >= 1 delivered message followed by >= 2 \
+reset_state both lists are empty; when an error is delivered, every warning site the flow passed before the \
+failing site (also one raised in the very same continue) has been delivered exactly once; the constructor's \
+version warning reaches a handler with the first continue. Non-trivial = play-through with >= 1 delivered message followed by >= 2 \
 further continues; distinct = hash(program, policy, handler?).";
 
 #[derive(Debug, Clone, PartialEq)]
